@@ -282,3 +282,46 @@ pub fn scn_unsorted(out: &mut TraceOut, r: &mut R, idx: u64, heavy: bool) {
     }
     write_and_log(out, &cfg, &entries);
 }
+
+/// Spec -> implementation for the writer: insert sequences generated by TLC from the WriterImpl
+/// model at real scale (`tlc -simulate`), replayed on the real writer. The decoded file is judged
+/// by TLC (TraceLayout); the layout the model predicted (offset, uncompressed size, entries of
+/// every block) is compared with the real one and differences are counted as drift.
+pub fn replay_wseq(out: &mut TraceOut, doc: &Value) -> (u64, u64) {
+    let levels = doc["L"].as_u64().unwrap() as u8;
+    let interval = doc["K"].as_u64().unwrap() as usize;
+    let keylen = |k: u64| -> usize { if k % 5 == 0 { 4 } else { 300 } };
+    let cfg = Cfg { codec: 0, level: 0, block_size: 0, interval, levels };
+    let mut blocks_compared = 0u64;
+    let mut drift = 0u64;
+    for (i, s) in doc["seqs"].as_array().unwrap().iter().enumerate() {
+        out.begin(&format!("wseq/{}/{}", doc["name"].as_str().unwrap_or("x"), i));
+        let keys: Vec<u64> = s["keys"].as_array().unwrap().iter().map(|x| x.as_u64().unwrap()).collect();
+        let vls: Vec<usize> = s["vls"].as_array().unwrap().iter().map(|x| x.as_u64().unwrap() as usize).collect();
+        let entries: Vec<Entry> = keys
+            .iter()
+            .zip(vls.iter())
+            .enumerate()
+            .map(|(j, (k, vl))| {
+                let mut key = vec![0xABu8; keylen(*k)];
+                key[0] = *k as u8;
+                (key, value_for(j as u32 + 1, *vl))
+            })
+            .collect();
+        if let Some(bytes) = write_and_log(out, &cfg, &entries) {
+            let raw = decode::decode(&bytes, 22);
+            let predicted = s["layout"].as_array().unwrap();
+            blocks_compared += predicted.len() as u64;
+            if predicted.len() != raw.blocks.len() {
+                drift += 1;
+            } else {
+                for (p, b) in predicted.iter().zip(raw.blocks.iter()) {
+                    if p[0].as_u64() != Some(b.off) || p[1].as_u64() != Some(b.usize_ as u64) || p[2].as_u64() != Some(b.entries.len() as u64) {
+                        drift += 1;
+                    }
+                }
+            }
+        }
+    }
+    (blocks_compared, drift)
+}
